@@ -50,6 +50,12 @@ SLEEPS = [0.001, 0.05, 0.6, 2.5, 6.0, 31.0]
 QUERY_KINDS = ['get_history', 'get_balance', 'listunspent', 'get_mempool', 'id_from_pos',
                'get_merkle', 'header_proof']
 LIMIT = 5
+# worker-thread jobs of the server (reads for sessions, mempool lookups, block processor work) and
+# the (execution delay, delivery delay) a slow_job operation gives the n-th further one of a name
+SLOW_JOBS = ['read_history', 'read_headers', 'fs_tx_hashes_at_blockheight', 'read_utxos',
+             'read_history', 'read_headers', 'fs_tx_hashes_at_blockheight',
+             'lookup_hashXs', 'lookup_utxos', 'flush_dbs', 'advance_block', 'backup_block']
+SLOW_MODES = [(0.0, 3.0), (0.0, 8.0), (0.0, 14.0), (3.0, 0.0), (8.0, 0.0)]
 
 
 def shards(tier):
@@ -96,6 +102,10 @@ def op_strategy(queries):
         st.tuples(st.just('sleep'), st.integers(0, len(SLEEPS) - 1)),
         st.tuples(st.just('sleep'), st.integers(0, len(SLEEPS) - 1)),
         st.tuples(st.just('quiesce')),
+        st.tuples(st.just('slow_job'), st.integers(0, len(SLOW_JOBS) - 1), st.integers(1, 3),
+                  st.integers(0, len(SLOW_MODES) - 1)),
+        st.tuples(st.just('slow_job'), st.integers(0, len(SLOW_JOBS) - 1), st.integers(1, 3),
+                  st.integers(0, len(SLOW_MODES) - 1)),
     ]
     if queries:
         q = st.tuples(st.just('query'), CL, st.integers(0, len(QUERY_KINDS) - 1), SCRIPT,
@@ -436,6 +446,13 @@ class SystemMachine:
             c = self.client(op[1])
             if c is not None:
                 self.send(c, 'blockchain.headers.subscribe', [], {'kind': 'hsub'})
+        elif kind == 'slow_job':
+            # the n-th further worker job of that name is slow: executed now and delivered late (a
+            # read crossing whatever the block processor does meanwhile) or executed late
+            t1, t2 = SLOW_MODES[op[3]]
+            if len(loop.slow_jobs) < 4:
+                loop.slow_jobs.append([SLOW_JOBS[op[1]], op[2], t1, t2])
+                self.info['classes'].add('slow_job.' + SLOW_JOBS[op[1]])
         elif kind == 'flag_flip':
             # a subscribed script whose only change is the has-unconfirmed-inputs flag of a
             # transaction that stays: its parent (paying another script) gets confirmed
